@@ -2,7 +2,7 @@
    pauli_products_map comes from QPG.conjtab (regenerated from /repo). *)
 From Coq Require Import ZArith List Bool.
 From QP Require Import Cx Zw Apply Local Gates.
-From QPM Require Import Pauli Operator.
+From QPM Require Import Pauli Operator OperatorExt.
 From QPG Require Import conjtab.
 Import ListNotations.
 
@@ -66,6 +66,38 @@ Proof.
   - apply iadd_nozero; auto. intros; apply Cadd_0_l.
   - apply omul_nozero. intros; apply Cadd_0_l.
 Qed.
+
+(* differences, quotients by a scalar and commutators *)
+Definition cm1 : C := Copp C1.
+Definition c_isub := isub C C0 Cadd Cmul Ceq_dec cm1.
+Definition c_idiv := idiv C Cmul.
+Definition c_comm := commutator C C0 Cadd Cmul Ceq_dec cm1 pauli_products_map zw_eval.
+
+Theorem operator_difference_is_matrix_difference :
+  forall (o o' : Cop) psi b, wf_op C o -> wf_op C o' ->
+  c_sem (c_isub o o') psi b = Csub (c_sem o psi b) (c_sem o' psi b).
+Proof.
+  intros. apply (isub_sem C C0 Cadd Cmul Ceq_dec (fun c => c)); auto; try reflexivity; intros; reflexivity.
+Qed.
+Theorem operator_quotient_is_matrix_quotient :
+  forall (s sinv : C) (o : Cop) psi b, Cmul s sinv = C1 ->
+  Cmul s (c_sem (c_idiv sinv o) psi b) = c_sem o psi b.
+Proof. intros s sinv o psi b H. apply (idiv_sem C Cmul (fun c => c)); auto. Qed.
+Theorem operator_commutator_is_matrix_commutator :
+  forall (a b : Cop) psi x, wf_op C a -> wf_op C b ->
+  c_sem (c_comm a b) psi x = Csub (c_sem a (c_sem b psi) x) (c_sem b (c_sem a psi) x).
+Proof.
+  intros. apply (commutator_sem C C0 Cadd Cmul Ceq_dec (fun c => c)); auto; try reflexivity;
+    try apply pauli_products_map_ok; intros; reflexivity.
+Qed.
+Theorem cancelling_terms_disappear_in_differences_and_commutators :
+  (forall (o o' : Cop), nozero C C0 o -> nozero C C0 (c_isub o o')) /\ (forall (a b : Cop), nozero C C0 (c_comm a b)).
+Proof.
+  split; intros.
+  - apply isub_nozero; auto. intros; apply Cadd_0_l.
+  - apply commutator_nozero. intros; apply Cadd_0_l.
+Qed.
+Print Assumptions operator_commutator_is_matrix_commutator.
 
 Example c05_example :
   pprod pauli_products_map [(0%nat, PX); (2%nat, PZ)] [(2%nat, PX); (0%nat, PY); (5%nat, PY)]
